@@ -205,6 +205,38 @@ theorem tie_callability : callabilityTexts = [
   ("construct", "{ if p . ctor = = nil { panic ( p . val . runtime . NewTypeError ( \"\" ) ) } if newTarget = = nil { newTarget = p . val } if v , ok : = p . checkHandler ( ) . construct ( p . target , args , newTarget ) ; ok { return p . val . runtime . toObject ( v ) } return p . ctor ( args , newTarget ) }")
 ] := by rfl
 
+/-- Go-native handlers (builtin_proxy.go nativeProxyHandler): one rule for all six keyed trap families — the `…Str` method
+consults the `…Idx` field only for an integer-like string key (`?int`) and then the string field, the `…Idx` method the
+`…Idx` field and then the string field (with the index rendered as a string), the `…Sym` method only the `…Sym` field; every
+other method exactly its own field.  (The lattice drives all four key kinds S / N / I / Y through Go handlers.) -/
+theorem tie_nativeRouting : nativeRouting = [
+  ("apply", ["Apply"]),
+  ("construct", ["Construct"]),
+  ("definePropertyIdx", ["DefinePropertyIdx", "DefineProperty"]),
+  ("definePropertyStr", ["DefinePropertyIdx?int", "DefineProperty"]),
+  ("definePropertySym", ["DefinePropertySym"]),
+  ("deleteIdx", ["DeletePropertyIdx", "DeleteProperty"]),
+  ("deleteStr", ["DeletePropertyIdx?int", "DeleteProperty"]),
+  ("deleteSym", ["DeletePropertySym"]),
+  ("getIdx", ["GetIdx", "Get"]),
+  ("getOwnPropertyDescriptorIdx", ["GetOwnPropertyDescriptorIdx", "GetOwnPropertyDescriptor"]),
+  ("getOwnPropertyDescriptorStr", ["GetOwnPropertyDescriptorIdx?int", "GetOwnPropertyDescriptor"]),
+  ("getOwnPropertyDescriptorSym", ["GetOwnPropertyDescriptorSym"]),
+  ("getPrototypeOf", ["GetPrototypeOf"]),
+  ("getStr", ["GetIdx?int", "Get"]),
+  ("getSym", ["GetSym"]),
+  ("hasIdx", ["HasIdx", "Has"]),
+  ("hasStr", ["HasIdx?int", "Has"]),
+  ("hasSym", ["HasSym"]),
+  ("isExtensible", ["IsExtensible"]),
+  ("ownKeys", ["OwnKeys"]),
+  ("preventExtensions", ["PreventExtensions"]),
+  ("setIdx", ["SetIdx", "Set"]),
+  ("setPrototypeOf", ["SetPrototypeOf"]),
+  ("setStr", ["SetIdx?int", "Set"]),
+  ("setSym", ["SetSym"])
+] := by rfl
+
 /-- every internal-method implementation of proxyObject reaches the handler only through checkHandler(),
 calls it, and dereferences the target only afterwards -/
 theorem tie_revocation_shape :
